@@ -61,6 +61,11 @@ type ModifyStream struct {
 	// RecvFailAt >= 0 makes the client-side Recv number i fail likewise.
 	RecvFailAt int
 	RecvFail   error
+	// RecvFailSendsAccepted: after the injected receive failure the client's Sends are still accepted (and dropped) -
+	// a transport that has not yet noticed on its write side that the stream is dead (grpc-go buffers writes), so
+	// the receive error is the ONLY report of the failure the client ever gets.
+	RecvFailSendsAccepted bool
+	recvDead              bool
 }
 
 // Modify opens a stream and starts the server handler as a thread.
@@ -147,6 +152,10 @@ func (c *modifyClient) Send(m *spb.ModifyRequest) error {
 		st.Sent++
 		return st.SendFail
 	}
+	if st.recvDead && st.RecvFailSendsAccepted {
+		st.Sent++
+		return nil
+	}
 	if st.aborted || st.closed {
 		return io.EOF
 	}
@@ -167,6 +176,7 @@ func (c *modifyClient) Recv() (*spb.ModifyResponse, error) {
 	if st.RecvFailAt >= 0 && st.Rcvd == st.RecvFailAt {
 		st.Abort(status.Code(st.RecvFail))
 		st.RecvFailAt = -2
+		st.recvDead = true
 		return nil, st.RecvFail
 	}
 	s := rt.NewSelect(false)
